@@ -5,7 +5,7 @@ P=$(readlink -f "$1"); C=$2; T=${3:-quick}
 D=$(mktemp -d /tmp/mrepo.XXXXXX)
 cp -r /repo/mouette "$D/mouette"
 # optional: PRE="fix1.diff fix2.diff" applies pending fixes before the mutant
-for q in $PRE; do ( cd "$D" && patch -s -p1 < "$(readlink -f "$OLDPWD/$q" 2>/dev/null || echo "$q")" ); done
+for q in $PRE; do ( cd "$D" && patch -s -p1 < "$q" ); done   # absolute paths
 ( cd "$D" && patch -s -p1 < "$P" )
 cd "$(dirname "$0")/.."
 set +e
